@@ -161,6 +161,12 @@ class SNMPClientProtocol(asyncio.DatagramProtocol):
             raise Timeout(
                 f"{timeout} second timeout exceeded on UDP transport."
             ) from exc
+        except Exception:
+            # Errors reported by the OS (f.ex. ICMP port unreachable) end up
+            # here. Don't leave the socket open
+            if self.transport:
+                self.transport.abort()
+            raise
 
 
 async def send_udp(
